@@ -92,7 +92,7 @@ def gen_case(rng):
             def near():
                 base = lab[rng.randrange(len(lab))]
                 return base + rng.choice([0, 0.25, -0.25, 0.5, -0.5, 1, -1, 1.5, 3, -3])
-            idx.append(near() if ik == 'near' else [near() for _ in range(rng.randint(1, 3))])
+            idx.append(near() if ik == 'near' else [near() for _ in range(rng.randint(0, 3))])      # an empty list selects nothing, also with a tolerance
         else:
             idx.append(gen_index(rng, sp["labels"][d], sp["kinds"][d], ik, None))
         kinds.append(ik)
@@ -250,7 +250,7 @@ def check(case, ctx):
                 # the same position counted from the end (NumPy semantics), deterministically from the case
                 return p - n if (case["ellpos"] + p) % 3 == 0 else p
             pos = [neg(p, len(l)) if not isinstance(p, list) else [neg(q, len(l)) for q in p] for p, l in zip(pos, m.labels)]
-            ppos = [p if not isinstance(p, list) else (np.array(p, dtype=int) if (len(p) == 0 or case["chain_by_pos"]) else list(p)) for p in pos]
+            ppos = [p if not isinstance(p, list) else (np.array(p, dtype=int) if case["chain_by_pos"] else list(p)) for p in pos]
             # full dims back to full slices so that Ellipsis/short forms are exercised too
             pidx = [slice(None) if is_full(ix) else p for ix, p in zip(idx, ppos)]
             pt = tuple_form(pidx, case["form"], case["ellpos"])
